@@ -238,6 +238,7 @@ type World struct {
 	// stacks of wrappers (stack.go): layers[i] = the db.BufferBatch / db.SyncBatch made by the i-th lnew (nil:
 	// not made); seq: this world runs the REFERENCE semantics of the wrappers (a buffer is the log of its calls,
 	// Flush replays it in call order; a SyncBatch is the batch it wraps) instead of db.BufferBatch / db.SyncBatch
+	held      map[int][][2][]byte // per iterator handle: (slice returned by Key(), private copy) of the last positions
 	layers    []db.IndexedBatch
 	layerKind []string
 	seq       bool
@@ -327,6 +328,33 @@ func cur(it db.Iterator) string {
 		return "uncopied-value-differs:" + hx(u) + "/" + hx(v)
 	}
 	return kv(k, v)
+}
+
+// heldKeys: a slice returned by Key() is the caller's (db.Iterator documents invalidation by the next positioning
+// call for UncopiedValue only; db/typed/prefix keeps Key() results in the entries it yields). The world keeps the
+// last few slices it got from every iterator next to a private copy and, after every positioning call, checks that
+// none of them changed; then it takes the key of the new position. A change is appended to the op's answer, so it
+// shows as a divergence between backends (and from the model) with the op sequence as replay.
+func (w *World) heldKeys(h int, it db.Iterator) string {
+	if w.held == nil {
+		w.held = map[int][][2][]byte{}
+	}
+	out := ""
+	for _, p := range w.held[h] {
+		if string(p[0]) != string(p[1]) {
+			out = " KEY-RETURNED-EARLIER-CHANGED:" + hx(p[1]) + "->" + hx(p[0])
+			break
+		}
+	}
+	if it.Valid() {
+		k := it.Key()
+		l := append(w.held[h], [2][]byte{k, append([]byte{}, k...)})
+		if len(l) > 4 {
+			l = l[len(l)-4:]
+		}
+		w.held[h] = l
+	}
+	return out
 }
 
 func tf(b bool) string {
@@ -612,16 +640,16 @@ func (w *World) exec(o Op) string {
 		switch o.K {
 		case "first":
 			r := it.First()
-			return tf(r) + " " + cur(it)
+			return tf(r) + " " + cur(it) + w.heldKeys(o.H, it)
 		case "next":
 			r := it.Next()
-			return tf(r) + " " + cur(it)
+			return tf(r) + " " + cur(it) + w.heldKeys(o.H, it)
 		case "prev":
 			r := it.Prev()
-			return tf(r) + " " + cur(it)
+			return tf(r) + " " + cur(it) + w.heldKeys(o.H, it)
 		case "seek":
 			r := it.Seek(bs(o.Key, o.NilB))
-			return tf(r) + " " + cur(it)
+			return tf(r) + " " + cur(it) + w.heldKeys(o.H, it)
 		case "key":
 			k := it.Key()
 			if k == nil && !it.Valid() {
